@@ -300,8 +300,14 @@ canonical NUM_INT; values of `int64` size -/
 def wfThreads (t : Bytes) : Bool :=
   (isFloatTok t && (parseFloat true t).isSome) || isCanonInt t
 
+/-- `mem_gb` / `vmem_gb` below 256 GB (2^18 = 262144 MB) in magnitude: the range where the EXACT
+reading of the model (`readGBTok`) and the float32 reading of the REAL parser (`readGB32Tok`) agree
+on every text `formatGB` prints (`Props.C09.readGB32_inverts_formatGB`).  From 256 GB on the real
+parser can read the printed text one MB lower (finding F29, `Props.C09.formatGB_float32_witness`),
+so the round-trip theorems over `wfRes` / `wfStage` / `wfFile` are claimed below that bound only.
+(`formatGB`'s own `int64` range, `|mb| < 2^63`, finding F25, is much larger and is subsumed.) -/
 def wfMB : Option Int → Bool
-  | some mb => decide (mb.natAbs < 2 ^ 63)
+  | some mb => decide (mb.natAbs < 262144)
   | none => true
 
 def wfRes (r : Res) : Bool :=
